@@ -174,6 +174,10 @@ class Delimited(OneOf):
                     # NOTE: This should happen on every loop _except_ the first.
                     delimiters += 1
                     working_match = working_match.append(delimiter_match)
+                    # The delimiter is now consumed. Don't carry it into a later
+                    # iteration (with an optional delimiter the next element may
+                    # follow without one).
+                    delimiter_match = None
                 working_match = working_match.append(match)
 
             # Prep for going back around the loop...
